@@ -366,7 +366,7 @@ Proof. cbn [mix_layout]. eexists. split; [vm_compute; reflexivity|]. repeat spli
 
 (* amd64: its frame-pointer technique wants the saved frame pointer to be a readable stack address at or above the
    caller's sp, so no scan frame can follow a frame-pointer frame there: CFI and frame-pointer frames to the end, the
-   last saved frame pointer pointing at the last word of the stack.  arm64: the frame pointer is carried through CFI
+   last saved frame pointer pointing at the last word of the stack.  arm64 (before the repair of F-C04a): the frame pointer was carried through CFI
    frames only under the name "fp" (a context frame), not under "x29" (behind a frame-pointer frame): frame-pointer
    frames first, then scan / CFI. *)
 Definition nv_amd_fp (base : Z) : list mspec :=
@@ -389,45 +389,62 @@ Example c04_nonvacuous_mix_fp_amd64_arm64 :
              map f_trust (tl fs) = [TCfi; TFramePointer; TCfi; TFramePointer; TCfi].
 Proof. split; [vm_compute; reflexivity|]. split; [vm_compute; reflexivity|]. cbn [mix_layout]. eexists. split; [vm_compute; reflexivity|]. reflexivity. Qed.
 
-(* F-C04a (known finding, design/C04.md): on arm64 (and arm) the unwinders list the frame pointer in CALLEE_SAVED_REGS as
-   "fp" while the frame-pointer technique marks "x29" ("r11") valid, and callee_forwarded_regs compares names literally:
-   behind a frame-pointer frame a CFI frame does not carry the frame pointer on, and a frame-pointer frame above it is
-   found by scanning only (frame pointer lost).  The precondition excludes exactly these stacks (CFI clause of
-   [mix_frames_ok]); here is one: frame pointer, CFI, frame pointer, CFI on arm64 — the third call comes back with trust
-   scan and the frame pointer 0, although the layout satisfies every other clause (on amd64 the same stack is recovered). *)
-Definition nv_a64_bad (base : Z) : list mspec :=
+(* F-C04a (fixed in /repo: "fix: arm/arm64 CFI frames forward the frame pointer whichever alias marks it valid"; design/C04.md).
+   Before the repair callee_forwarded_regs of arm / arm64 looked the CALLEE_SAVED_REGS names up LITERALLY in the callee's
+   validity set; the list says "fp", the frame-pointer technique marks "x29" ("r11") valid, so behind a frame-pointer frame
+   a CFI frame did not carry the frame pointer on and a frame-pointer frame above it was found by scanning only.
+   [literal_fwd a] is [a] with the old comparison.  The stack frame pointer / CFI / frame pointer / CFI:
+   with the old comparison the third call comes back with trust scan and the frame pointer 0 (refutation, kept checkable);
+   with the code as it is now the same stack satisfies the precondition and is recovered. *)
+Definition literal_fwd (a : arch) : arch := {|
+  a_bits := a_bits a; a_slot_bits := a_slot_bits a; a_pw := a_pw a; a_trunc := a_trunc a;
+  a_ip_name := a_ip_name a; a_sp_name := a_sp_name a; a_fp_name := a_fp_name a; a_lr_name := a_lr_name a;
+  a_cfi_sp_name := a_cfi_sp_name a; a_cfi_ip_name := a_cfi_ip_name a;
+  a_aliases := a_aliases a; a_callee_saved := a_callee_saved a; a_fwd_alias := false;
+  a_fp := a_fp a; a_fp_guard_words := a_fp_guard_words a; a_bp := a_bp a; a_max_gap := a_max_gap a;
+  a_scan_context := a_scan_context a; a_scan_default := a_scan_default a; a_scan_skip := a_scan_skip a;
+  a_pre_ok := a_pre_ok a; a_canon_fp := a_canon_fp a; a_strip := a_strip a;
+  a_cutoff := a_cutoff a; a_adj := a_adj a; a_leaf := a_leaf a; a_sp_stop_le := a_sp_stop_le a |}.
+Definition nv_a64_mix (base : Z) : list mspec :=
   [ {| ms_tech := TkFp; ms_fill := [5; base + 8 * 5]; ms_ra := 1073742080 |};              (* words 0..2, saved fp at word 1 *)
     {| ms_tech := TkCfi; ms_fill := [7]; ms_ra := 1073742096 |};                           (* words 3..4 *)
     {| ms_tech := TkFp; ms_fill := [0]; ms_ra := 1073742112 |};                            (* words 5..6, saved fp at word 5 *)
     {| ms_tech := TkCfi; ms_fill := [7]; ms_ra := 1073742128 |} ].                         (* words 7..8 *)
-Theorem c04_fp_behind_cfi_known_witness :
-  mix_wf_layout arm64 nv_iv nv_mods 70368744177664 1073741904 (70368744177664 + 8 * 1) (nv_a64_bad 70368744177664) = false /\
-  mix_wf_layout x86 nv_iv nv_mods 2147483648 1073741904 (2147483648 + 4 * 1)
-    (map (fun f => match ms_tech f, ms_fill f with TkFp, [x; _] => {| ms_tech := TkFp; ms_fill := [x; 2147483648 + 4 * 5]; ms_ra := ms_ra f |} | _, _ => f end)
-         (nv_a64_bad 0)) = true /\
-  let '(r, v, mem) := mix_layout arm64 70368744177664 1073741904 (70368744177664 + 8 * 1) [] (nv_a64_bad 70368744177664) in
-  exists fs, walk_stack current_code Debug arm64 OS_OTHER mem nv_mods 0 (mix_cfi_correct arm64 70368744177664 (nv_a64_bad 70368744177664)) nv_iv
-               (fuel_for mem) r v = Ret fs /\
-             map f_trust (tl fs) = [TFramePointer; TCfi; TScan; TCfi] /\
-             map (fun f => r_fp (f_regs f)) (tl fs) = [70368744177664 + 8 * 5; 70368744177664 + 8 * 5; 0; 0] /\
-             map (fun f => mix_trust (ms_tech f)) (nv_a64_bad 70368744177664) = [TFramePointer; TCfi; TFramePointer; TCfi].
+Theorem c04_fp_behind_cfi_unfixed_refuted :
+  let base := 70368744177664 in
+  let '(r, v, mem) := mix_layout arm64 base 1073741904 (base + 8 * 1) [] (nv_a64_mix base) in
+  mix_wf_layout arm64 nv_iv nv_mods base 1073741904 (base + 8 * 1) (nv_a64_mix base) = true /\
+  map (fun f => mix_trust (ms_tech f)) (nv_a64_mix base) = [TFramePointer; TCfi; TFramePointer; TCfi] /\
+  (exists fs, walk_stack current_code Debug (literal_fwd arm64) OS_OTHER mem nv_mods 0 (mix_cfi_correct arm64 base (nv_a64_mix base)) nv_iv
+                (fuel_for mem) r v = Ret fs /\
+              map f_trust (tl fs) = [TFramePointer; TCfi; TScan; TCfi] /\
+              map (fun f => r_fp (f_regs f)) (tl fs) = [base + 8 * 5; base + 8 * 5; 0; 0]) /\
+  (exists fs, walk_stack current_code Debug arm64 OS_OTHER mem nv_mods 0 (mix_cfi_correct arm64 base (nv_a64_mix base)) nv_iv
+                (fuel_for mem) r v = Ret fs /\
+              map f_trust (tl fs) = [TFramePointer; TCfi; TFramePointer; TCfi] /\
+              map (fun f => r_fp (f_regs f)) (tl fs) = [base + 8 * 5; base + 8 * 5; 0; 0]).
 Proof.
-  split; [vm_compute; reflexivity|]. split; [vm_compute; reflexivity|].
-  cbn [mix_layout]. eexists. split; [vm_compute; reflexivity|]. repeat split; reflexivity.
+  cbv zeta. cbn [mix_layout].
+  split; [vm_compute; reflexivity|]. split; [reflexivity|]. split.
+  - eexists. split; [vm_compute; reflexivity|]. split; reflexivity.
+  - eexists. split; [vm_compute; reflexivity|]. split; reflexivity.
 Qed.
-Print Assumptions c04_fp_behind_cfi_known_witness.
+Print Assumptions c04_fp_behind_cfi_unfixed_refuted.
 
-(* the state of F-C04a in the sources, through the translator (Gen/UnwindConsts.v is regenerated from the unwinders on
-   every run): is the register the frame-pointer technique marks valid listed, under that very name, among the registers
-   callee_forwarded_regs forwards?  x86 ebp, amd64 rbp, mips fp: yes; arm r11 and arm64 x29: no (listed as "fp").  A repair
-   of F-C04a changes this table, breaks this proof and so flags the known finding and the CFI clause of the precondition. *)
-Theorem c04_fp_forwarded_by_name :
+(* the comparison each unwinder's callee_forwarded_regs makes, through the translator (Gen/UnwindConsts.v is regenerated from
+   the sources on every run: literal name lookup / register_is_valid), and the spellings involved: arm and arm64 list the
+   frame pointer as "fp" while their frame-pointer technique marks "r11" / "x29" valid, so THEY need the alias-aware
+   comparison; x86 / amd64 / mips list the very name the techniques use.  Reverting the repair of F-C04a flips the first
+   table (and breaks c04_mix_archs for arm / arm64). *)
+Theorem c04_fwd_alias_pinned :
+  map a_fwd_alias [x86; amd64; arm; arm64; mips32; mips64] = [false; false; true; true; false; false] /\
   map (fun a => memb (a_fp_name a) (a_callee_saved a)) [x86; amd64; arm; arm64; mips32; mips64] = [true; true; false; false; true; true] /\
   map (fun a => memb (a_fp_name a) (fp_valid a)) [x86; amd64; arm; arm64] = [true; true; true; true] /\
   map a_fp_name [arm; arm64] = [7483697; 7877177] /\        (* "r11", "x29" *)
-  memb 26224 (a_callee_saved arm) = true /\ memb 26224 (a_callee_saved arm64) = true.   (* "fp" *)
-Proof. repeat split; reflexivity. Qed.
-Print Assumptions c04_fp_forwarded_by_name.
+  memb 26224 (a_callee_saved arm) = true /\ memb 26224 (a_callee_saved arm64) = true /\   (* "fp" *)
+  In 26224 (alias_group arm (a_fp_name arm)) /\ In 26224 (alias_group arm64 (a_fp_name arm64)).
+Proof. repeat split; try reflexivity; cbn; tauto. Qed.
+Print Assumptions c04_fwd_alias_pinned.
 
 (* c04_recovers_chain_attributed is not vacuous: the module list [0x40000000, +0x10000) gives the module lookup of the
    64-call x86 stack above, the precondition holds with it, and the second call's lookup address (0x4000010f) gets the
